@@ -183,6 +183,25 @@ CATALOGUE = {
     "optional-field-nil": ["class O {", "\tf: int?", "\tconstructor(self) {", "\t\tself.f = nil", "\t}", "}", "oo = O()", "print typeof oo.f", "print oo.f"],
 }
 
+# fixed-shape lists x every list method: the per-position element types are a promise of the compiler, so a method either is refused
+# on such a list or leaves every position holding a value of its declared kind (asymmetric shapes, so that any permutation shows)
+_FX_SHAPES = {"isf": '[1, "a", 2.5]', "is": '[1, "a"]', "si": '["a", 1]', "ibs": '[1, true, "z"]'}
+_FX_CALLS = {"len": "fx.len()", "inner_capacity": "fx.inner_capacity()", "ensure_inner_capacity": "fx.ensure_inner_capacity(8)", "to_str": "fx.to_str()",
+             "clone": "fx.clone()", "reverse": "fx.reverse()", "remove": "fx.remove(0)", "push-int": "fx.push(9)", "push-str": 'fx.push("q")',
+             "join": "fx.join([9])", "join-self": "fx.join(fx)", "map": "fx.map(fn(e: int) -> int {\n\treturn e\n})",
+             "filter": "fx.filter(fn(e: int) -> bool {\n\treturn true\n})", "index_of": "fx.index_of(1)",
+             "clone-reverse": "fc = fx.clone()\nfc.reverse()", "alias-reverse": "fa = fx\nfa.reverse()",
+             "param-reverse": "rv = fn(q: [int, str]) {\n\tq.reverse()\n}\nrv(fx)"}
+for _sn, _lit in _FX_SHAPES.items():
+    _n = _lit.count(",") + 1
+    for _cn, _call in _FX_CALLS.items():
+        if _cn == "param-reverse" and _sn != "is":
+            continue
+        _obs = []
+        for _i in range(_n):
+            _obs += [f"print typeof fx[{_i}]", f"print fx[{_i}]"]
+        CATALOGUE[f"fixed-{_sn}-method-{_cn}"] = [f"const fx = {_lit}"] + _call.split("\n") + _obs
+
 
 class C02(Check):
     id = "C02"
